@@ -151,6 +151,61 @@ impl MModel {
     }
 }
 
+/// The repository's real models, decoded with the mirror structs (so that plans stay data).
+pub fn real_models() -> &'static [MModel] {
+    static MODELS: std::sync::OnceLock<Vec<MModel>> = std::sync::OnceLock::new();
+    MODELS.get_or_init(|| {
+        #[allow(unused_mut)]
+        let mut v = vec![];
+        #[cfg(not(miri))]
+        {
+            let repo = std::env::var("VERIF_REPO").unwrap_or_else(|_| "/repo".into());
+            if let Ok(b) = std::fs::read(std::path::Path::new(&repo).join("resources/model.bin")) {
+                if let Some((m, _)) = MModel::from_bytes(&b) {
+                    v.push(m);
+                }
+            }
+            #[cfg(feature = "ffi")]
+            if let Ok(f) = std::fs::File::open(std::path::Path::new(&repo).join("vaporetto_tantivy/test_model/model.zst")) {
+                if let Ok(b) = zstd::decode_all(f) {
+                    if let Some((m, _)) = MModel::from_bytes(&b) {
+                        v.push(m);
+                    }
+                }
+            }
+        }
+        v
+    })
+}
+
+/// Pads the model with a dictionary comment so that its serialisation has exactly `target`
+/// bytes (block-size boundaries of buffers are where off-by-one flushes hide). Returns false
+/// if the size cannot be reached.
+pub fn pad_to_size(m: &mut MModel, target: usize) -> bool {
+    m.dict_model.retain(|d| d.word != "＿pad");
+    m.dict_model.push(MWord { word: "＿pad".to_string(), weights: vec![0; 5], comment: String::new() });
+    let base = m.to_bytes().len();
+    if target < base {
+        m.dict_model.pop();
+        return false;
+    }
+    let mut n = target - base;
+    for _ in 0..6 {
+        m.dict_model.last_mut().unwrap().comment = "c".repeat(n);
+        let got = m.to_bytes().len();
+        if got == target {
+            return true;
+        }
+        if got > target {
+            n = n.saturating_sub(got - target);
+        } else {
+            n += target - got;
+        }
+    }
+    m.dict_model.pop();
+    false
+}
+
 #[derive(Clone, Copy, Debug)]
 pub struct ModelKnobs {
     pub max_window: u8,
